@@ -19,10 +19,12 @@ import (
 	"time"
 
 	"github.com/markusressel/fan2go/internal/configuration"
+	"github.com/spf13/viper"
 )
 
 type parinitIn struct {
-	Par   bool             `json:"par"`
+	Par   bool             `json:"par"`        // false: the file says `runFanInitializationInParallel: false`
+	ParAbsent bool         `json:"par_absent"` // par = true only: the option is absent from the file (default true) instead of an explicit true
 	Scale int              `json:"scale"` // real time = configured time / scale
 	Frd   *int             `json:"fan_response_delay"` // fanResponseDelay (default 1)
 	Fans  []startupFanSpec `json:"fans"`
@@ -99,6 +101,58 @@ func (e *startupEnv) parinitQuiesce(ids []int, quiet time.Duration, max time.Dur
 	}
 }
 
+// parinitLoadConfig writes a fan2go.yaml and loads it exactly like the daemon does (viper reset, InitConfig,
+// read, LoadConfig, Validate). Nothing in configuration.CurrentConfig is assigned by the driver: the option under
+// test (runFanInitializationInParallel), dbPath and every timing / window setting of the start-up path arrive
+// through the real loader. The expectation handed to Coq is what the FILE says, not what the loader produced.
+func parinitLoadConfig(env *startupEnv, in parinitIn) {
+	temp := filepath.Join(env.dir, "temp_input")
+	_ = os.WriteFile(temp, []byte("40000"), 0644)
+	frd := 1
+	if in.Frd != nil {
+		frd = *in.Frd
+	}
+	yaml := "dbPath: " + env.dbPath + "\n"
+	if !in.Par {
+		yaml += "runFanInitializationInParallel: false\n"
+	} else if !in.ParAbsent {
+		yaml += "runFanInitializationInParallel: true\n"
+	}
+	yaml += "maxRpmDiffForSettledFan: 20.0\n" +
+		"fanResponseDelay: " + strconv.Itoa(frd) + "\n" +
+		"tempSensorPollingRate: 200ms\n" +
+		"tempRollingWindowSize: 10\n" +
+		"rpmPollingRate: 1h\n" + // the RPM monitor never ticks: every RPM read before the first cycle is the measurement's
+		"rpmRollingWindowSize: 10\n" +
+		"controllerAdjustmentTickRate: 2ms\n" +
+		"sensors:\n  - id: s1\n    file:\n      path: " + temp + "\n" +
+		"curves:\n  - id: startup_curve\n    linear:\n      sensor: s1\n      min: 40\n      max: 80\n" +
+		"fans:\n"
+	for _, f := range in.Fans {
+		// the fan objects are built from the same data by fans.NewFan; here they only have to validate
+		d := env.devs[f.Id]
+		yaml += "  - id: fan" + strconv.Itoa(f.Id) + "\n    curve: startup_curve\n    file:\n      path: " + d.pwmPath + "\n"
+	}
+	cfg := filepath.Join(env.dir, "fan2go.yaml")
+	if err := os.WriteFile(cfg, []byte(yaml), 0644); err != nil {
+		panic(err)
+	}
+	viper.Reset()
+	configuration.InitConfig(cfg)
+	if used := configuration.DetectAndReadConfigFile(); used != cfg {
+		panic("parinit: unexpected configuration file " + used)
+	}
+	configuration.LoadConfig()
+	if err := configuration.Validate(cfg); err != nil {
+		panic("parinit: generated configuration does not validate: " + err.Error())
+	}
+	if configuration.CurrentConfig.DbPath == "" {
+		panic("parinit: no dbPath after loading the configuration")
+	}
+	// the controllers get their persistence the way the daemon builds it: from the loaded dbPath
+	env.dbPath = configuration.CurrentConfig.DbPath
+}
+
 func parinitRun(ctx *Ctx, in parinitIn) parinitObs {
 	parinitCaseNo++
 	dir := filepath.Join(ctx.WorkDir, "pcase"+strconv.Itoa(parinitCaseNo))
@@ -112,14 +166,10 @@ func parinitRun(ctx *Ctx, in parinitIn) parinitObs {
 	}
 	env := startupNewEnv(dir, false, int64(scale))
 	defer env.close()
-	startupSetGlobals(in.Par)
-	configuration.CurrentConfig.FanResponseDelay = 1
-	if in.Frd != nil {
-		configuration.CurrentConfig.FanResponseDelay = *in.Frd
-	}
 	for _, f := range in.Fans {
 		env.addDevice(f)
 	}
+	parinitLoadConfig(env, in)
 	for _, ent := range in.Db {
 		if d, ok := env.devs[ent.Id]; ok {
 			env.preload(d, ent)
@@ -211,14 +261,16 @@ func parinitQuant(q int) [][2]int {
 }
 
 func parinitGen(rng *Rng, par bool, variant int) (parinitIn, []string) {
-	in := parinitIn{Par: par, Scale: 200}
+	in := parinitIn{Par: par, Scale: 200, ParAbsent: par && rng.Bool()}
 	n := rng.Range(2, 4)
 	if variant == 1 || variant == 2 {
 		n = rng.Range(3, 4)
 	}
 	tags := []string{"fans=" + itoa(n)}
-	if par {
-		tags = append(tags, "parallel")
+	if par && in.ParAbsent {
+		tags = append(tags, "parallel", "option-absent")
+	} else if par {
+		tags = append(tags, "parallel", "option-true")
 	} else {
 		tags = append(tags, "sequential")
 	}
